@@ -25,7 +25,7 @@ ID = "C08"
 LEVEL = "model_checking"
 MIN_OUTCOMES = 4
 MANIFEST = {
-    'text': 'Explicit-state search over operation sequences on real temporary git repositories: every sequence of the 10-operation alphabet up to depth 3/5 (plus, thorough, length-12 runs with <= 2 deviations) is executed with the real CLI (three project layouts, one with a configured path spelled `docs/../setup.py`, one whose repository data lives outside the work tree (`.git` is a file), one that reaches its config file through `*.toml`), snapshots are reused and canonical states (work tree, index status, branch heads, tags, date) are hashed and merged; after every step config, every constructed occurrence, `show`, the newest tag and HEAD must agree as the property states, failing invocations must leave the state unchanged, and the default next update must succeed from every clean reachable state.',
+    'text': 'Explicit-state search over operation sequences on real temporary git repositories: every sequence of the 10-operation alphabet up to depth 3/5 (plus, thorough, length-12 runs with <= 2 deviations) is executed with the real CLI (three project layouts, one with a configured path spelled `docs/../setup.py`, one whose repository data lives outside the work tree (`.git` is a file), one that reaches its config file through `*.toml`), snapshots are reused and canonical states (work tree, index status, branch heads, tags, date) are hashed and merged; after every step config, every constructed occurrence, `show`, the newest tag and HEAD must agree as the property states, failing invocations must leave the state unchanged, and the default next update must succeed from every clean reachable state. Scripted histories add an uncommitted edit + --allow-dirty and a hand-made tag that merely begins like a version of the pattern (it must change nothing).',
     'note': 'histories longer than 5 with more than 2 deviations, remotes and merges are outside the bound',
     'technique': 'explicit-state model checking: bounded exhaustive search over operation histories with state hashing on real git + real CLI',
 }
@@ -41,7 +41,7 @@ LAYOUTS = {
         # README.md: two different patterns on ONE line, the one configured first standing to the right
         files={"README.md": ["pep={pep440_version};", "ver={version};"], "src/__init__.py": ['__version__ = "{version}"']},
         content={"README.md": "# demo\ninstall ver=v202001.1001-beta; (pep=202001.1001b0;) today\nend\n", "src/__init__.py": '__version__ = "v202001.1001-beta"\n'},
-        u=[], u2=["--tag", "rc"], u3=["--tag", "final"], fail=["--set-version", "v201901.0001"], gitfile=True,
+        u=[], u2=["--tag", "rc"], u3=["--tag", "final"], fail=["--set-version", "v201901.0001"], gitfile=True, stray="v209912.9999.1",
     ),
     "semver": dict(
         pattern="MAJOR.MINOR.PATCH[-TAGNUM]", start="1.2.3", date=dt.date(2021, 6, 1),
@@ -49,7 +49,7 @@ LAYOUTS = {
         files={"docs/../setup.py": ['version="{pep440_version}"'], "docs/index.md": ["release {version} of"], "docs/series.md": ["the MAJOR.MINOR series"]},
         content={"setup.py": 'setup(name="demo", version="1.2.3")\n', "docs/index.md": "This is release 1.2.3 of demo.\r\n",
                  "docs/series.md": "Documentation of the 1.2 series.\n"},
-        u=["--patch"], u2=["--minor"], u3=["--tag", "rc"], fail=["--set-version", "0.0.1"],
+        u=["--patch"], u2=["--minor"], u3=["--tag", "rc"], fail=["--set-version", "0.0.1"], stray="9.9.9.1",
     ),
     "glob": dict(
         pattern="YYYY.MM.INC0", start="2021.6.0", date=dt.date(2021, 6, 1),
@@ -57,13 +57,16 @@ LAYOUTS = {
         files={"pkg/*.txt": ["v={version}"], "*.toml": ['^release = "{version}"']},
         cfg_head='release = "2021.6.0"\n\n', implicit_cfg_entry=True,
         content={"pkg/a.txt": "v=2021.6.0\n", "pkg/b.txt": "x\r\nv=2021.6.0\r\n", "pkg/.c.txt": "hidden\nv=2021.6.0\n"},
-        u=[], u2=["--pin-date"], u3=["--date", "2030-01-01"], fail=["--set-version", "2000.1.0"],
+        u=[], u2=["--pin-date"], u3=["--date", "2030-01-01"], fail=["--set-version", "2000.1.0"], stray="2099.12.0.1",
     ),
 }
 OPS = ("u", "d", "u2", "u3", "uf", "un", "ut", "c", "b", "D")
 # histories with an uncommitted edit of an unrelated tracked file (w) and `update --allow-dirty` (ua): not part of the BFS alphabet
 SCRIPTS = [("w", "ua"), ("w", "u"), ("u", "w", "ua"), ("w", "ua", "u"), ("w", "ua", "w", "ua"), ("b", "w", "ua", "b", "u"), ("w", "un", "ua"), ("c", "w", "ua", "c", "u"),
-           ("w", "ua", "d", "ua"), ("u2", "w", "ua", "u3")]
+           ("w", "ua", "d", "ua"), ("u2", "w", "ua", "u3"),
+           # x: somebody tags HEAD by hand with a name that BEGINS like a version of the pattern, is valid PEP 440 and sorts above everything,
+           # but is not a version of the pattern: it is no version tag, every agreement must hold as if it were not there
+           ("x", "u"), ("u", "x", "u", "u2"), ("x", "b", "u", "b", "u"), ("u", "x", "d", "u", "c", "u3")]
 
 
 def bounds(tier, seed):
@@ -204,6 +207,10 @@ def apply_op(st, layout, op, date, history):
             f.write("work in progress\n")
         st.outcomes["op:uncommitted-edit"] += 1
         return date
+    if op == "x":
+        gw.git("tag", L["stray"])
+        st.outcomes["op:stray-tag"] += 1
+        return date
     if op == "b":
         cur = gw.git("rev-parse", "--abbrev-ref", "HEAD").strip()
         r = gw.git("checkout", "-q", "side" if cur == "main" else "main", check=False)
@@ -263,12 +270,12 @@ def apply_op(st, layout, op, date, history):
             bad("pending-changes-differ-after-allow-dirty-update", before=before["status"], after=after["status"])
     elif after["status"]:
         bad("work-tree-not-clean-after-committing-update", status=after["status"])
-    tags_now = [l.split(" ")[0] for l in after["tags"]]
+    tags_now = [l.split(" ")[0] for l in after["tags"] if l.split(" ")[0] != L["stray"]]
     if op == "ut":
         if after["tags"] != before["tags"]:
             bad("no-tag-run-created-a-tag")
         return date
-    new_tags = [t for t in tags_now if t not in [l.split(" ")[0] for l in before["tags"]]]
+    new_tags = [t for t in tags_now if t not in [l.split(" ")[0] for l in before["tags"]]]  # (the hand-made stray tag is never new here)
     if new_tags != [new]:
         bad("tag-is-not-the-announced-version", new_tags=new_tags, announced=new)
     else:
@@ -339,6 +346,8 @@ def run_chunk(chunk):
                 date = apply_op(st, layout, op, date, hist)
                 hist.append(op)
                 st.state(canonical(date))
+            os.chdir(root)
+            expand_default(st, layout, date, hist, root, "script")  # (from a clean end state a further update must be possible)
             st.observe((layout, script, gw.state()["tags"], gw.state()["status"]))
     else:
         _k, layout, devs, n = chunk
